@@ -166,10 +166,15 @@ def _same_function(
     if len(one[1]) != len(other[1]):
         return False
     positional = sympy.symbols(f"_arg0:{len(one[1])}", seq=True)
-    return bool(
-        one[0].subs(dict(zip(one[1], positional, strict=True)), simultaneous=True)
-        == other[0].subs(dict(zip(other[1], positional, strict=True)), simultaneous=True)
-    )
+
+    def by_position(fn: tuple[sympy.Expr, list[str]]) -> sympy.Expr:
+        # A name that is passed twice is bound to its first position in the emitted def
+        mapping: dict[str, sympy.Symbol] = {}
+        for name, symbol in zip(fn[1], positional, strict=True):
+            mapping.setdefault(name, symbol)
+        return cast(sympy.Expr, fn[0].subs(mapping, simultaneous=True))
+
+    return bool(by_position(one) == by_position(other))
 
 
 def _register_fn(
